@@ -241,9 +241,12 @@ pub fn run(o: &Opts) -> Report {
     }
     bcands.sort(); bcands.dedup();
     for c in &bcands {
-        for p in ["bool", "boolish", "falsey"] {
+        // the language of the three boolean parsers is a property of the parser alone: the argument's `ignore_case`
+        // (which widens possible-value matching) must not widen it
+        for (p, ic) in [("bool", false), ("boolish", false), ("falsey", false), ("bool", true), ("boolish", true), ("falsey", true)] {
             let req = format!("bval {} {}", p, hex(c));
-            let (cmd, arg) = built(Arg::new("flag").long("flag").action(ArgAction::Set)); let os = OsStr::from_bytes(c);
+            let (cmd, arg) = built(Arg::new("flag").long("flag").ignore_case(ic).action(ArgAction::Set)); let os = OsStr::from_bytes(c);
+            if ic { rep.count("bool_with_ignore_case_arg"); }
             let mut fails = vec![];
             let r = match p {
                 "bool" => clap::builder::BoolValueParser::new().parse_ref(&cmd, Some(&arg), os),
